@@ -464,3 +464,69 @@ package leveldb
 //@ func (*DB).OpenTransaction
 //@   props C04
 //@   ensures [C04,C11:no-frozen-memdb] ret1 == nil ==> db.frozenMem == nil
+
+// ---------------------------------------------------------------------------
+// Transactions (C11)
+
+//@ count (*tOps).remove
+//@ count (*session).commit
+//@ count (*DB).setSeq
+//@ count (*Transaction).discard
+//@ count (*Transaction).setDone
+
+// Writes inside a transaction touch only the transaction: not the DB's sequence number, its memdbs or its
+// current version (proved from the write sets of everything put can reach).
+//@ func (*Transaction).put
+//@   props C11
+//@   ensures [C11:isolated-from-db] tr.db == old(tr.db) && tr.db.seq == old(tr.db.seq) && tr.db.mem == old(tr.db.mem) && tr.db.frozenMem == old(tr.db.frozenMem) && tr.db.s.stVersion == old(tr.db.s.stVersion) && tr.db.s.stSeqNum == old(tr.db.s.stSeqNum)
+//@   ensures [C11:one-seq-per-record] result == nil ==> tr.seq == old(tr.seq) + 1
+//@   ensures [C11:failed-put-takes-no-seq] result != nil ==> tr.seq == old(tr.seq)
+
+//@ func (*DB).OpenTransaction
+//@   props C11
+//@   ensures [C11:starts-at-db-seq] ret1 == nil ==> (ret0.seq == db.seq && db.tr == ret0 && len(ret0.tables) == 0)
+
+// Commit: one manifest edit, sequence number published only after the edit succeeded, done only after that.
+//@ func (*Transaction).Commit
+//@   props C11
+//@   loop 1
+//@     invariant [C11:nothing-published-while-retrying] calls("(*DB).setSeq") == old(calls("(*DB).setSeq")) && calls("(*Transaction).setDone") == old(calls("(*Transaction).setDone")) && calls("(*session).commit") == old(calls("(*session).commit")) + retry && retry >= 0
+//@     invariant [C11:failed-so-far] retry > 0 ==> cerr != nil
+//@   at before call (*DB).setSeq#1
+//@     assert [C11:publish-only-after-commit] cerr == nil && calls("(*session).commit") > old(calls("(*session).commit"))
+//@   at before call (*Transaction).setDone#1
+//@     assert [C11:done-only-after-publication] len(tr.tables) != 0 ==> (cerr == nil && calls("(*DB).setSeq") == old(calls("(*DB).setSeq")) + 1)
+//@   ensures [C11:error-publishes-nothing] result != nil ==> (calls("(*DB).setSeq") == old(calls("(*DB).setSeq")) && calls("(*Transaction).setDone") == old(calls("(*Transaction).setDone")))
+
+// Discard removes every table the transaction created, through the table cache.
+//@ func (*Transaction).discard
+//@   props C11 C07
+//@   loop 1
+//@     invariant [C07,C11:one-remove-per-table] calls("(*tOps).remove") == old(calls("(*tOps).remove")) + rangeidx && sameslice(tr.tables, old(tr.tables))
+//@   ensures [C07,C11:every-table-removed] calls("(*tOps).remove") == old(calls("(*tOps).remove")) + len(old(tr.tables))
+
+//@ func (*Transaction).Discard
+//@   props C11
+//@   ensures [C11:discard-then-done] !old(tr.closed) ==> (calls("(*Transaction).discard") == old(calls("(*Transaction).discard")) + 1 && calls("(*Transaction).setDone") == old(calls("(*Transaction).setDone")) + 1)
+//@   ensures [C11:noop-when-closed] old(tr.closed) ==> (calls("(*Transaction).discard") == old(calls("(*Transaction).discard")) && calls("(*Transaction).setDone") == old(calls("(*Transaction).setDone")))
+
+// The oversized-batch path of DB.Write is all-or-nothing: a failed fill or commit discards the transaction.
+//@ func (*DB).Write
+//@   props C11
+//@   at before call (*Transaction).Commit#1
+//@     assert [C11:commit-only-after-complete-fill] err == nil
+
+// ---------------------------------------------------------------------------
+// C08: a journal write whose fate is unknown (it failed, but the record may have reached the file) must be
+// followed by the publication of its sequence numbers before the write lock is given up; otherwise the next
+// write reuses them and recovery rejects or drops that later, acknowledged record.
+//@ func (*DB).writeLocked
+//@   props C08
+//@   at before call (*DB).unlockWrite#2
+//@     assert [C08:journal-write-always-followed-by-seq-publication] calls("(*DB).addSeq") - old(calls("(*DB).addSeq")) == calls("(*DB).writeJournal") - old(calls("(*DB).writeJournal"))
+//@   at before call (*DB).unlockWrite#3
+//@     assert [C08:journal-write-always-followed-by-seq-publication] calls("(*DB).addSeq") - old(calls("(*DB).addSeq")) == calls("(*DB).writeJournal") - old(calls("(*DB).writeJournal"))
+//@   at before call (*DB).unlockWrite#4
+//@     assert [C08:journal-write-always-followed-by-seq-publication] calls("(*DB).addSeq") - old(calls("(*DB).addSeq")) == calls("(*DB).writeJournal") - old(calls("(*DB).writeJournal"))
+//@   at before call (*Batch).putMem#1
+//@     assert [C08:failed-journal-write-is-not-applied] calls("(*DB).writeJournal") == old(calls("(*DB).writeJournal")) + 1
